@@ -1,49 +1,152 @@
 #!/venv/bin/python
-"""seeded_import.py: copy every seed whose confirmation log is complete into /verif/seeded/<ID>-<v>/ (patch.diff, demo.py,
-meta.json extended with what the confirmation ran and saw) and run the checks against it (seeded_run.py)."""
-import os, sys, json, re, shutil, subprocess, glob
+"""seeded_import.py [names...]: bring every seeded change whose confirmation is complete into /verif/seeded/<ID>-<v>/
+(patch.diff, demo.py, meta.json extended with what the confirmation ran and saw) and evaluate the CURRENT checks against it.
+
+Nothing here touches /repo's working tree or /verif's evidence: the checks run from a scratch copy of /verif
+(/var/tmp/vcopy<k>) with VERIF_REPO pointing at a scratch git worktree of /repo HEAD that has the patch applied
+(and, for a seed that relies on a since-repaired defect, the named fix commit reverted)."""
+import os, sys, json, shutil, subprocess, glob
+from concurrent.futures import ThreadPoolExecutor
 VERIF = os.path.dirname(os.path.dirname(os.path.abspath(__file__)))
-CONF = '/root/seedtools/confirm'
-EXTRA = {'C01': ['C05', 'C03'], 'C02': ['C08'], 'C03': ['C08'], 'C04': ['C03'], 'C06': ['C03'], 'C08': ['C02', 'C05', 'C03'], 'C09': [], 'C10': [], 'C11': ['C13'], 'C12': [], 'C13': ['C11'],
-         'C14': ['C13'], 'C15': ['C13'], 'C16': ['C13'], 'C17': [], 'C05': ['C01'], 'C07': ['C12']}
-for log in sorted(glob.glob(os.path.join(CONF, '*.log'))):
-    name = os.path.basename(log)[:-4]
-    pid, v = name.split('-')
-    dst = os.path.join(VERIF, 'seeded', name)
-    if os.path.exists(os.path.join(dst, 'results.json')):
-        continue
-    txt = open(log).read()
-    ok = 'clean_rc=0' in txt and 'applied=yes' in txt and 'patched_rc=1' in txt and 'ALL STABLE TESTS PASS' in txt
-    if not ('ALL STABLE TESTS PASS' in txt or 'BROKEN TESTS' in txt):
-        continue      # confirmation still running
-    src = '/tmp/seed/out/%s/%s' % (pid, v)
-    os.makedirs(dst, exist_ok=True)
-    for f in ('patch.diff', 'demo.py'):
-        shutil.copy(os.path.join(src, f), os.path.join(dst, f))
-    meta = json.load(open(os.path.join(dst, 'meta.json'))) if os.path.exists(os.path.join(dst, 'meta.json')) else json.load(open(os.path.join(src, 'meta.json')))
-    meta['property'] = pid
-    meta['confirmed_by_me'] = {'base_commit': subprocess.run('git -C /repo rev-parse --short HEAD', shell=True, stdout=subprocess.PIPE, text=True).stdout.strip(),
-                               'what_i_ran': 'scratch worktree of /repo HEAD: demo.py without the patch (exit 0), `git apply patch.diff`, demo.py with the patch (exit 1), the full pinned test suite with the patch (all 6212 stable tests pass)',
-                               'confirmation_log': txt[-1500:], 'confirmed': ok}
-    json.dump(meta, open(os.path.join(dst, 'meta.json'), 'w'), indent=1)
-    if not ok:
-        json.dump({'not_run': 'confirmation failed: see meta.json'}, open(os.path.join(dst, 'results.json'), 'w'))
-        print(name, 'NOT CONFIRMED')
-        continue
-    # the fixes committed to /repo since the seed was written may have neutralised it: re-run the demo on the current HEAD
-    wt = '/var/tmp/seedchk-' + name
-    subprocess.run('git -C /repo worktree remove --force %s; git -C /repo worktree add -q %s HEAD' % (wt, wt), shell=True, stdout=subprocess.DEVNULL, stderr=subprocess.DEVNULL)
-    revert = meta.get('requires_reverting')
-    if revert:
-        subprocess.run('git -C %s diff %s %s~1 | git -C %s apply' % (wt, revert, revert, wt), shell=True)
-    ap = subprocess.run('git -C %s apply %s' % (wt, os.path.join(dst, 'patch.diff')), shell=True)
-    demo = subprocess.run('PYTHONPATH=%s/src timeout 900 /venv/bin/python %s' % (wt, os.path.join(dst, 'demo.py')), shell=True, stdout=subprocess.DEVNULL, stderr=subprocess.DEVNULL)
-    subprocess.run('git -C /repo worktree remove --force %s' % wt, shell=True, stdout=subprocess.DEVNULL, stderr=subprocess.DEVNULL)
-    meta['confirmed_by_me']['demo_exit_on_current_head_with_patch'] = demo.returncode
-    json.dump(meta, open(os.path.join(dst, 'meta.json'), 'w'), indent=1)
-    if ap.returncode != 0 or demo.returncode != 1:
-        json.dump({'not_run': 'on the current /repo HEAD (with the fix: commits) the patch %s and the demo exits %d: the seed no longer breaks the property' % ('applies' if ap.returncode == 0 else 'does not apply', demo.returncode)}, open(os.path.join(dst, 'results.json'), 'w'))
-        print(name, 'NEUTRALISED (demo exit %d, apply %d)' % (demo.returncode, ap.returncode))
-        continue
-    print('==', name)
-    subprocess.run([os.path.join(VERIF, 'harness', 'seeded_run.py'), dst] + EXTRA.get(pid, []), env=dict(os.environ, SEED_REVERT=revert or ''))
+ROUNDS = [('/tmp/seed/out', '/root/seedtools/confirm', 'ab'), ('/tmp/seed2/out', '/root/seedtools/confirm2', 'c')]
+REBASED = '/var/tmp/preseed'        # patches re-based by hand onto the repaired tree live here (see meta.json: rebased_onto)
+EXTRA = {'C01': ['C05', 'C03'], 'C02': ['C08'], 'C03': ['C08', 'C04'], 'C04': ['C03'], 'C06': ['C03', 'C07'], 'C07': ['C06', 'C01'], 'C08': ['C03'], 'C09': ['C03'], 'C10': [], 'C11': [], 'C12': ['C08'],
+         'C13': ['C14'], 'C14': ['C13'], 'C15': ['C13'], 'C16': ['C13'], 'C17': [], 'C05': ['C01']}
+NOTES = {
+    'C13-a': {'requires_reverting': '17ce2e9', 'note_on_base': 'relies on minify() extending the caller\'s preserve lists in place (defect D5, repaired by fix commit 17ce2e9); evaluated with 17ce2e9 reverted (two cooperating sites)'},
+    'C11-a': {'dropped': 'the same change as C13-a; as a C11 violation it exists only through defect D5 itself (repaired by 17ce2e9): with the fix reverted C11 alarms with or without the seed, so it discriminates nothing'},
+    'C10-b': {'rebased_onto': 'the repaired tree: the normalisation of preserve_locals/preserve_globals had been rewritten by fix 17ce2e9; the seeded helper _name_list() was re-applied by hand on top of it'},
+    'C16-a': {'rebased_onto': 'the repaired tree: the shebang regex had been changed by fix 10b82d1; the seeded .decode(\'latin-1\') was re-applied by hand'},
+    'C12-b': {'rebased_onto': 'the repaired tree: PEP 701 support for f_string.Bytes was added by fix commits 06cc3a4/9762545; the seeded defect (no escape for the backslash byte) was re-created by deleting that branch'},
+}
+
+
+def sh(cmd, **kw):
+    return subprocess.run(cmd, shell=True, stdout=subprocess.PIPE, stderr=subprocess.STDOUT, text=True, **kw)
+
+
+def worktree(name, meta, patch):
+    wt = '/tmp/seedeval-' + name
+    sh('git -C /repo worktree remove --force %s' % wt)
+    if sh('git -C /repo worktree add -q %s HEAD' % wt).returncode != 0:
+        return None, 'cannot create worktree'
+    rev = meta.get('requires_reverting')
+    if rev:
+        sh('git -C %s diff %s %s~1 | git -C %s apply' % (wt, rev, rev, wt))
+    return wt, None
+
+
+def evaluate(job):
+    name, dst, slot = job
+    meta = json.load(open(os.path.join(dst, 'meta.json')))
+    wt, err = worktree(name, meta, os.path.join(dst, 'patch.diff'))
+    if wt is None:
+        return name, {'not_run': err}
+    try:
+        clean = sh('PYTHONPATH=%s/src timeout 900 /venv/bin/python %s' % (wt, os.path.join(dst, 'demo.py'))).returncode
+        ap = sh('git -C %s apply %s' % (wt, os.path.join(dst, 'patch.diff')))
+        if ap.returncode != 0:
+            return name, {'not_run': 'patch does not apply to the current /repo HEAD: ' + ap.stdout[-200:]}
+        patched = sh('PYTHONPATH=%s/src timeout 900 /venv/bin/python %s' % (wt, os.path.join(dst, 'demo.py'))).returncode
+        meta.setdefault('confirmed_by_me', {})['demo_exit_on_current_head'] = {'without_patch': clean, 'with_patch': patched}
+        json.dump(meta, open(os.path.join(dst, 'meta.json'), 'w'), indent=1)
+        if clean != 0 or patched != 1:
+            return name, {'not_run': 'on the current /repo HEAD the demonstration exits %d without and %d with the patch: the seed no longer separates the trees' % (clean, patched)}
+        copy = '/var/tmp/vcopy%d' % slot
+        sh('rsync -a --delete --exclude .git --exclude coq/Cases --exclude replay %s/ %s/' % (VERIF, copy))
+        os.makedirs(os.path.join(copy, 'replay'), exist_ok=True)
+        results = {}
+        pid = meta['property']
+        for cid in [pid] + [x for x in EXTRA.get(pid, []) if x != pid]:
+            for f in glob.glob(os.path.join(copy, 'replay', cid + '-*.json')):
+                os.remove(f)
+            p = sh('/venv/bin/python harness/check.py %s quick' % cid, cwd=copy, env=dict(os.environ, VERIF_REPO=wt), timeout=5400)
+            lines = [l for l in p.stdout.splitlines() if l.startswith(('VIOLATION', 'OK '))]
+            sigs, broken = set(), []
+            for f in sorted(glob.glob(os.path.join(copy, 'replay', cid + '-*.json'))):
+                try:
+                    r = json.load(open(f))
+                except Exception:
+                    continue
+                if 'signature' in r:
+                    sigs.add(r['signature'])
+                for b in r.get('no_longer_checks', []) or r.get('broken_obligations', []) or []:
+                    broken.append(str(b)[:300])
+            verdict = 'quiet' if p.returncode == 0 else ('alarm-with-failing-input' if sigs else 'alarm-no-failing-input-found')
+            results[cid] = {'exit': p.returncode, 'verdict': verdict, 'lines': [l[:200] for l in lines[:4]], 'signatures': sorted(sigs)[:8], 'broken_obligations': sorted(set(broken))[:4]}
+        return name, results
+    finally:
+        sh('git -C /repo worktree remove --force %s' % wt)
+
+
+def main():
+    only = set(sys.argv[1:])
+    head = sh('git -C /repo rev-parse --short HEAD').stdout.strip()
+    jobs = []
+    for out, conf, versions in ROUNDS:
+        for pdir in sorted(glob.glob(os.path.join(out, 'C??'))):
+            pid = os.path.basename(pdir)
+            for v in versions:
+                name = '%s-%s' % (pid, v)
+                src = os.path.join(pdir, v)
+                if only and name not in only:
+                    continue
+                if not os.path.exists(os.path.join(src, 'patch.diff')) or not os.path.exists(os.path.join(src, 'meta.json')):
+                    continue
+                note = NOTES.get(name, {})
+                dst = os.path.join(VERIF, 'seeded', name)
+                if 'dropped' in note:
+                    os.makedirs(dst, exist_ok=True)
+                    meta = json.load(open(os.path.join(src, 'meta.json')))
+                    meta.update(note)
+                    json.dump(meta, open(os.path.join(dst, 'meta.json'), 'w'), indent=1)
+                    shutil.copy(os.path.join(src, 'patch.diff'), os.path.join(dst, 'patch.diff'))
+                    shutil.copy(os.path.join(src, 'demo.py'), os.path.join(dst, 'demo.py'))
+                    json.dump({'not_run': note['dropped']}, open(os.path.join(dst, 'results.json'), 'w'), indent=1)
+                    continue
+                log = os.path.join(conf, name + '.log')
+                txt = open(log).read() if os.path.exists(log) else ''
+                if 'rebased_onto' in note:
+                    rl = os.path.join('/root/seedtools/confirm3', name + '.log')
+                    txt = open(rl).read() if os.path.exists(rl) else ''
+                if not ('ALL STABLE TESTS PASS' in txt or 'BROKEN TESTS' in txt):
+                    print(name, 'confirmation not finished')
+                    continue
+                ok = 'clean_rc=0' in txt and 'applied=yes' in txt and 'patched_rc=1' in txt and 'ALL STABLE TESTS PASS' in txt
+                os.makedirs(dst, exist_ok=True)
+                psrc = os.path.join(REBASED, name) if 'rebased_onto' in note else src
+                shutil.copy(os.path.join(psrc, 'patch.diff'), os.path.join(dst, 'patch.diff'))
+                shutil.copy(os.path.join(src, 'demo.py'), os.path.join(dst, 'demo.py'))
+                meta = json.load(open(os.path.join(src, 'meta.json')))
+                meta['property'] = pid
+                meta.update(note)
+                meta['confirmed_by_me'] = {'what_i_ran': 'in a scratch worktree of /repo (HEAD incl. the fix: commits at that time): demo.py without the patch (exit 0), `git apply patch.diff`, demo.py with the patch (exit 1), '
+                                           'then the full pinned test suite with the patch applied (/root/seedtools/run_tests.sh: every one of the 6212 tests that pass on the unchanged tree still passes)',
+                                           'confirmation_log_tail': txt[-1200:], 'confirmed': ok, 'checks_evaluated_against_repo_head': head}
+                json.dump(meta, open(os.path.join(dst, 'meta.json'), 'w'), indent=1)
+                if not ok:
+                    json.dump({'not_run': 'not confirmed (see meta.json): kept for the record only'}, open(os.path.join(dst, 'results.json'), 'w'), indent=1)
+                    print(name, 'NOT CONFIRMED')
+                    continue
+                jobs.append(name)
+    print('evaluating', len(jobs), 'seeds')
+
+    def run(ix_name):
+        ix, name = ix_name
+        dst = os.path.join(VERIF, 'seeded', name)
+        try:
+            nm, res = evaluate((name, dst, ix % 3))
+        except Exception as e:   # noqa
+            nm, res = name, {'not_run': 'evaluation failed: %r' % e}
+        json.dump(res, open(os.path.join(dst, 'results.json'), 'w'), indent=1)
+        print(nm, {k: (v.get('verdict') if isinstance(v, dict) else v) for k, v in res.items()}, flush=True)
+    # three scratch copies: a slot is used by one evaluation at a time
+    slots = [[], [], []]
+    for i, nme in enumerate(jobs):
+        slots[i % 3].append((i, nme))
+    with ThreadPoolExecutor(3) as ex:
+        list(ex.map(lambda lst: [run(x) for x in lst], slots))
+
+
+if __name__ == '__main__':
+    main()
